@@ -296,6 +296,8 @@ def save_replay(prop: str, v: Violation) -> str:
 
 def _run_one(args: tuple[str, dict]) -> tuple[dict, JobResult | None, str | None]:
     modname, job = args
+    # coroutines of abandoned executions (deadlock / horizon runs) are finalised without a loop: not our subject
+    sys.unraisablehook = lambda _u: None
     try:
         import importlib
 
